@@ -351,7 +351,7 @@ Fixpoint chain_from (d : dname -> option disk) (fuel : nat) (cur : option dname)
                    rename of volume.meta failed                                            (F11)
     - [fix_children] removeDiskNode also deletes the removed disk's diskChildrenMap entry  (F12) *)
 Record cfg := mkcfg { maxlen : nat; fixed : bool; fix_dup : bool; fix_rev : bool; fix_commit : bool;
-                      fix_children : bool }.
+                      fix_children : bool; fix_mem : bool }.
 
 Definition chain_fuel (g : cfg) : nat := S (S (maxlen g)).
 Definition mchain (g : cfg) (m : mem) : option (list dname) :=
@@ -919,6 +919,19 @@ Inductive rstate := SOpen | SDirty | SRebuilding.
 Definition mstate (m : mem) : rstate :=
   if i_rebuilding (m_info m) then SRebuilding else if i_dirty (m_info m) then SDirty else SOpen.
 
+(** /repo 0472ed5 (Resize), 0c1a1af (SetCheckpoint), a3198e0 (createDisk) — [fix_mem g = true]: these
+    three functions prepare the new Info / records in local copies, write them, and assign to the
+    fields of the Replica only after the last write succeeded ("done = true"): every failure exit
+    leaves the memory the function was entered with.  Their bodies below ([create_disk], [resize],
+    [set_checkpoint]) compute the memory the way the code before those commits changed it in place,
+    call by call; what the repaired functions return is that memory on success and the memory at
+    entry on every other exit.  [fix_mem g = false] is the code before the three commits (findings
+    createdisk-memory-on-failure, resize-size-on-failure, checkpoint-set-on-failure). *)
+Definition keep_old (g : cfg) (m : mem) (t : mem * res) : mem * res :=
+  if fix_mem g && negb (is_ok (snd t)) then (m, snd t) else t.
+Definition keepold (g : cfg) (m : mem) (p : prog (mem * res)) : prog (mem * res) :=
+  t_ <- p ;; Ret (keep_old g m t_).
+
 Definition lift (p : prog (mem * res)) : prog (option mem * res * nat) :=
   t_ <- p ;; let '(m, e) := t_ in Ret (Some m, e, O).
 
@@ -971,13 +984,13 @@ Definition op_prog (g : cfg) (om : option mem) (o : op) : prog (option mem * res
       | _ => Ret (Some m, Refused, O)
       end
   | OWrite, Some m => lift (write_at m)
-  | OSnap s user cr, Some m => lift (create_disk g m s user cr)
+  | OSnap s user cr, Some m => lift (keepold g m (create_disk g m s user cr))
   | ORemove d, Some m => lift (remove_diff_disk g m d)
   | OPrep d, Some m =>
       t_ <- prepare_remove_disk g m d ;; let '(m1, e, n) := t_ in Ret (Some m1, e, n)
   | ORevert d cr, Some m => lift (revert_disk g m d cr)
-  | OResize sz, Some m => lift (resize g m sz)
-  | OCheckpoint c, Some m => lift (set_checkpoint g m c)
+  | OResize sz, Some m => lift (keepold g m (resize g m sz))
+  | OCheckpoint c, Some m => lift (keepold g m (set_checkpoint g m c))
   | ORebuilding b, Some m =>
       match b, mstate m with
       | true, SRebuilding | false, SOpen | false, SDirty => Ret (Some m, Refused, O)
